@@ -321,4 +321,148 @@ theorem regStr_value (V : Variant) (sv : Bool) (name : Bytes) (sub : SubTy) (dfl
     | list _ _ _ _ => exact key _ _ _ _ rfl rfl
     | obj _ _ => exact key _ _ _ _ rfl rfl
 
+
+/-- the function `conf_register_*` applies to the node found (or to nothing) -/
+def regMk (V : Variant) (sv : Bool) (name : Bytes) (rk : RegKind) (wh : Bool) (e : Eff) (pfx : List Bytes) :
+    Option Node → Except Fault (Node × Eff) :=
+  match rk with
+  | .str sub dflt => regStr V sv name sub dflt wh e pfx
+  | .inaddr dh ds => regInaddr V name dh ds wh e
+  | .list dflt => regList V name dflt wh e
+  | .obj => regObj name wh e
+
+/-- name under which the registered node is kept: the existing node's, else the given one -/
+def keptName (name : Bytes) (kind : Nat) : Option Node → Bytes
+  | some n => if n.kind = kind then n.name else name
+  | none => name
+
+theorem regMk_name (V : Variant) (sv : Bool) (name : Bytes) (rk : RegKind) (wh : Bool) (e : Eff) (pfx : List Bytes)
+    (ex : Option Node) (n' : Node) (a : Eff) (h : regMk V sv name rk wh e pfx ex = .ok (n', a)) :
+    n'.name = keptName name rk.kind ex ∧ n'.kind = rk.kind := by
+  cases rk with
+  | str sub dflt =>
+    simp only [regMk, regStr] at h
+    have hn : (strFields name ex).1.name = keptName name 0 ex := by
+      cases ex with
+      | none => rfl
+      | some x => cases x <;> simp [strFields, keptName, Node.kind, Node.name, Node.base]
+    rcases hq : strFields name ex with ⟨b, value, osub, parsed⟩
+    rw [hq] at h hn
+    simp only at h
+    split at h
+    · simp at h
+    · simp at h; obtain ⟨rfl, _⟩ := h
+      exact ⟨hn, rfl⟩
+  | inaddr dh ds =>
+    simp only [regMk, regInaddr] at h
+    have hn : (inaddrFields name ex).1.name = keptName name 1 ex := by
+      cases ex with
+      | none => rfl
+      | some x => cases x <;> simp [inaddrFields, keptName, Node.kind, Node.name, Node.base]
+    rcases hq : inaddrFields name ex with ⟨b, ho, so⟩
+    rw [hq] at h hn
+    simp only at h
+    split at h
+    · split at h
+      · simp at h
+      · split at h
+        · simp at h
+        · simp at h; obtain ⟨rfl, _⟩ := h; exact ⟨hn, rfl⟩
+    · simp at h; obtain ⟨rfl, _⟩ := h; exact ⟨hn, rfl⟩
+  | list dflt =>
+    simp only [regMk, regList] at h
+    have hn : (listFields name ex).1.name = keptName name 2 ex := by
+      cases ex with
+      | none => rfl
+      | some x => cases x <;> simp [listFields, keptName, Node.kind, Node.name, Node.base]
+    rcases hq : listFields name ex with ⟨b, v, cap⟩
+    rw [hq] at h hn
+    simp only at h
+    generalize (if V.f15 = true then !b.present else !cap) = install at h
+    cases install with
+    | true => simp at h; obtain ⟨rfl, _⟩ := h; exact ⟨hn, rfl⟩
+    | false => simp at h; obtain ⟨rfl, _⟩ := h; exact ⟨hn, rfl⟩
+  | obj =>
+    simp only [regMk, regObj] at h
+    have hn : (objFields name ex).1.name = keptName name 3 ex := by
+      cases ex with
+      | none => rfl
+      | some x => cases x <;> simp [objFields, keptName, Node.kind, Node.name, Node.base]
+    rcases hq : objFields name ex with ⟨b, ks⟩
+    rw [hq] at h hn
+    simp at h; obtain ⟨rfl, _⟩ := h; exact ⟨hn, rfl⟩
+
+theorem regMk_key (V : Variant) (sv : Bool) (name : Bytes) (rk : RegKind) (wh : Bool) (e : Eff) (pfx : List Bytes)
+    (ex : Option Node) (n' : Node) (a : Eff) (h : regMk V sv name rk wh e pfx ex = .ok (n', a))
+    (hex : ex = none ∨ ∃ n, ex = some n ∧ (keyCmp name rk.kind n.name n.kind == 0) = true) :
+    (keyCmp name rk.kind n'.name n'.kind == 0) = true := by
+  obtain ⟨h1, h2⟩ := regMk_name V sv name rk wh e pfx ex n' a h
+  rw [h1, h2]
+  rcases hex with rfl | ⟨n, rfl, hk⟩
+  · simp [keptName, keyCmp_self]
+  · have hkind : rk.kind = n.kind := keyCmp_zero_kind (by simpa using hk)
+    simp only [keptName, hkind, if_true]
+    rw [hkind] at hk; exact hk
+
+/-- C15, registration point: after `conf_register_*` the setting is found under its key and
+    is what `regMk` makes of the node that was there (the file's node, if the file gave
+    one) — see `regStr_value`, `regList_value`, `regInaddr_value` for what that is. -/
+theorem register_lookup (V : Variant) (sv : Bool) (name : Bytes) (rk : RegKind) (wh : Bool) (e e' : Eff) (pfx : List Bytes)
+    (kids kids' : List Node) (h : regLeaf V sv name rk wh e pfx kids = .ok (kids', e')) :
+    ∃ n', regMk V sv name rk wh e pfx (nfind name rk.kind kids) = .ok (n', e') ∧ nfind name rk.kind kids' = some n' := by
+  have : regLeaf V sv name rk wh e pfx kids = nupsert name rk.kind (regMk V sv name rk wh e pfx) kids := by
+    unfold regLeaf regMk; cases rk <;> rfl
+  rw [this] at h
+  exact nfind_nupsert name rk.kind _ (fun ex n' a hm hex => regMk_key V sv name rk wh e pfx ex n' a hm hex) kids kids' e' h
+
+
+/-! ### arbitrary histories -/
+
+/-- an API call of a history: a load or a registration -/
+inductive ApiOp where
+  | load (body : Bytes)
+  | reg (path : List Bytes) (rk : RegKind) (wantHook : Bool)
+
+def ApiOp.ok : ApiOp → Prop
+  | .load _ => True
+  | .reg _ rk _ => rkOK rk
+
+def applyOp (V : Variant) (sv : Bool) (st : State) : ApiOp → Except Fault (State × ReadOut)
+  | .load body => confRead V sv st body
+  | .reg path rk wh => confRegister V sv st path rk wh
+
+def runOps (V : Variant) (sv : Bool) : State → List ApiOp → Except Fault State
+  | st, [] => .ok st
+  | st, op :: ops => match applyOp V sv st op with
+    | .error f => .error f
+    | .ok (st', _) => runOps V sv st' ops
+
+/-- C15: no history of loads (of any files, valid or not) and registrations (at any point)
+    commits a memory error; the ownership invariant holds throughout -/
+theorem history_no_fault (V : Variant) (h9 : V.f9 = true) (h14 : V.f14 = true) (sv : Bool) :
+    ∀ (ops : List ApiOp) (st : State), StateOK st → (∀ op ∈ ops, op.ok) →
+      ∃ st', runOps V sv st ops = .ok st' ∧ StateOK st'
+  | [], st, hst, _ => ⟨st, rfl, hst⟩
+  | op :: ops, st, hst, hok => by
+    have hop := hok op (List.mem_cons_self ..)
+    have step : ∃ st1 o, applyOp V sv st op = .ok (st1, o) ∧ StateOK st1 := by
+      cases op with
+      | load body => exact merge_no_fault V h9 sv st body hst
+      | reg path rk wh => exact register_no_fault V h14 sv st path rk wh hop hst
+    obtain ⟨st1, o, h1, ok1⟩ := step
+    obtain ⟨st', h2, ok2⟩ := history_no_fault V h9 h14 sv ops st1 ok1 (fun x hx => hok x (List.mem_cons_of_mem _ hx))
+    exact ⟨st', by simp [runOps, h1, h2], ok2⟩
+
+/-- C15 (`C15_canonical`, for registrations made before the last load): whatever history
+    of loads and registrations came before, a successful load leaves the live tree
+    `Settled` with respect to its file: file values where the file speaks, registered
+    defaults elsewhere, nothing else. -/
+theorem C15_canonical (V : Variant) (h9 : V.f9 = true) (h14 : V.f14 = true) (sv : Bool)
+    (ops : List ApiOp) (hok : ∀ op ∈ ops, op.ok) (body : Bytes) (scratch : List PNode) (hp : parseFile V body = .ok scratch) :
+    ∃ st st' o, runOps V sv {} ops = .ok st ∧ confRead V sv st body = .ok (st', o) ∧ StateOK st' ∧
+      Settled sv scratch st'.kids := by
+  obtain ⟨st, h1, ok1⟩ := history_no_fault V h9 h14 sv ops {} stateOK_init hok
+  obtain ⟨st', o, h2, ok2⟩ := merge_no_fault V h9 sv st body ok1
+  exact ⟨st, st', o, h1, h2, ok2, load_settles V h9 h14 sv st st' body o scratch hp h2⟩
+
 end Iauthd.Conf
